@@ -7,7 +7,7 @@
    earlier offset that holds a label-length octet (never another pointer).
 
    The step theorems say what pack_name does to the output and to the map; they
-   are stated for every buffer content of the same length ("forall pre") so that
+   are stated for every buffer content of the same length (forall pre) so that
    octets patched later (RDLENGTH) cannot matter. *)
 From Dns Require Import Base.ListX Model.NameWire Spec.NameSpec Proofs.EscapeProofs
   Proofs.TokenProofs Proofs.LabelsProofs Proofs.NameWireProofs Proofs.NameRoundtripProofs.
@@ -312,7 +312,8 @@ Proof.
     bfalse (ptr + 1 =? 0). destruct (ptr =? 0); f_equal; f_equal; lia.
 Qed.
 
-(* ... and more than 126 hops are refused: the decoder gives up at hop 127 *)
+(* ... and more hops than max_pointers are refused (un_go level; for names of at
+   most 255 wire octets this cannot happen, see laysn_hops_127) *)
 Lemma un_go_laysn_err out p ls h e : laysn out p ls h e ->
   forall fuel s off1 budget ptr,
   (length ls + h < fuel)%nat -> (Z.of_N (lenN (wire_labels ls)) < budget)%Z ->
@@ -357,7 +358,7 @@ Proof.
   lia.
 Qed.
 
-Lemma unpack_fuel_enough n h : 2 * N.of_nat n <= 254 -> (h <= 126)%nat -> (n + h < unpack_name_fuel)%nat.
+Lemma unpack_fuel_enough n h : 2 * N.of_nat n <= 254 -> (h <= 127)%nat -> (n + h < unpack_name_fuel)%nat.
 Proof. unfold unpack_name_fuel. lia. Qed.
 
 Lemma unpack_fuel_enough2 n h : 2 * N.of_nat n <= 254 -> (h <= n)%nat -> (n + h < unpack_name_fuel)%nat.
@@ -366,11 +367,11 @@ Proof. unfold unpack_name_fuel. lia. Qed.
 Local Opaque un_go.
 Local Strategy opaque [unpack_name_fuel].
 
-(* C5: a laid name of at most 255 wire octets reached through at most 126 hops is
+(* C5: a laid name of at most 255 wire octets reached through at most 127 hops is
    read by UnpackDomainName as the presentation form of exactly those labels,
    and the decoder reports the end of the contiguous encoding *)
 Theorem lays_unpack out p ls h e :
-  laysn out p ls h e -> wire_len ls <= 255 -> (h <= 126)%nat ->
+  laysn out p ls h e -> wire_len ls <= 255 -> (h <= 127)%nat ->
   unpack_name out p = Ok (show_name ls, e).
 Proof.
   intros H Hlen Hh. unfold unpack_name.
@@ -384,29 +385,23 @@ Proof.
   - unfold max_pointers. lia.
 Qed.
 
-Theorem lays_unpack_too_many_hops out p ls h e :
-  laysn out p ls h e -> wire_len ls <= 255 -> (126 < h)%nat ->
-  unpack_name out p = Err "pointers".
+(* a name of at most 255 wire octets has at most 127 labels, and every hop lands
+   on a label: at most 127 hops, which is the decoder's limit *)
+Theorem laysn_hops_127 out p ls h e :
+  laysn out p ls h e -> wire_len ls <= 255 -> (length ls <= 127)%nat /\ (h <= 127)%nat.
 Proof.
-  intros H Hlen Hh. unfold unpack_name.
-  unfold wire_len, wire_name in Hlen. rewrite lenN_app, lenN_cons, lenN_nil in Hlen.
+  intros H Hlen. unfold wire_len, wire_name in Hlen. rewrite lenN_app, lenN_cons, lenN_nil in Hlen.
   pose proof (lab_ok_wire_len ls (laysn_labels_ok _ _ _ _ _ H)) as Hn.
-  pose proof (laysn_hops _ _ _ _ _ H) as [Hhl _].
-  apply (un_go_laysn_err out p ls h e H).
-  - apply unpack_fuel_enough2; lia.
-  - unfold max_name_wire. lia.
-  - unfold max_pointers. lia.
-  - unfold max_pointers. lia.
+  pose proof (laysn_hops _ _ _ _ _ H) as [Hh _]. lia.
 Qed.
 
-(* the hop count never exceeds the number of labels: names of up to 126 labels
-   are always decodable *)
+(* hence every laid name within the 255-octet limit is decodable *)
 Theorem lays_unpack_labels out p ls h e :
-  laysn out p ls h e -> wire_len ls <= 255 -> (length ls <= 126)%nat ->
+  laysn out p ls h e -> wire_len ls <= 255 ->
   unpack_name out p = Ok (show_name ls, e).
 Proof.
-  intros H Hlen Hl. apply (lays_unpack out p ls h e H Hlen).
-  pose proof (laysn_hops _ _ _ _ _ H). lia.
+  intros H Hlen. apply (lays_unpack out p ls h e H Hlen).
+  exact (proj2 (laysn_hops_127 _ _ _ _ _ H Hlen)).
 Qed.
 
 (* ================= B. the compression map ================= *)
@@ -879,18 +874,16 @@ Proof.
     split; [now exists b|exact Hinv'].
 Qed.
 
-(* C2, with the real decoder: names of at most 126 labels always decode; for 127
-   labels see lays_unpack_refuted below *)
+(* C2, with the real decoder: the packed name always decodes *)
 Theorem pack_name_lays s cap cp st st' :
   s <> [] -> st_inv st -> pack_name s cap cp st = Ok st' ->
   exists ls, parse_name s = Some ls /\ lays (pn_out st') (lenN (pn_out st)) ls /\
-    ((length ls <= 126)%nat ->
-     unpack_name (pn_out st') (lenN (pn_out st)) = Ok (show_name ls, lenN (pn_out st'))).
+    unpack_name (pn_out st') (lenN (pn_out st)) = Ok (show_name ls, lenN (pn_out st')).
 Proof.
   intros Hs Hinv H.
   destruct (pack_name_spec s cap cp st st' Hs Hinv H) as [ls [b [h [Hp [Hlen [_ [_ [Hlay [Hh _]]]]]]]]].
   exists ls. split; [exact Hp|]. split; [now exists h, (lenN (pn_out st'))|].
-  intro Hl. apply (lays_unpack _ _ _ h _ Hlay); [|lia].
+  apply (lays_unpack_labels _ _ _ h _ Hlay).
   unfold name_len_ok in Hlen. apply andb_prop in Hlen. destruct Hlen as [_ Hlen].
   unfold wire_len, wire_name. rewrite lenN_app, lenN_cons, lenN_nil. lia.
 Qed.
@@ -925,7 +918,7 @@ Qed.
 
 (* ================= non-vacuity and the 127-label finding ================= *)
 (* three names packed after a 12-octet header: the second is compressed against
-   the first (same case), the third shares only "com." with it because the map
+   the first (same case), the third shares only com. with it because the map
    is keyed by the presentation text, case included *)
 Definition ex_st0 : pn_state := {| pn_out := repeat 0 12; pn_cm := Some [] |}.
 Definition ex_n1 : bytes := bytes_of_string "www.Example.com.".
@@ -972,13 +965,11 @@ Proof.
   - exfalso. vm_compute in Ha. injection Ha as <-. vm_compute in Hb. discriminate.
 Qed.
 
-(* FINDING.  The hop limit of the decoder is 126, but the packer can lay a name
-   of 127 one-octet labels behind 127 hops: pack a., a.a., ..., (a.)^127 — each
-   is one label and a pointer to the previous one — and then (a.)^127 again,
-   which is emitted as a bare pointer.  The first 127 names decode; the last
-   does not ("too many compression pointers").  The same happens with the real
-   library: Msg.Pack with Compress on 128 records with these owner names gives
-   octets that Msg.Unpack rejects. *)
+(* The edge of the hop limit (the finding that led to the repair of
+   maxCompressionPointers to 127): pack a., a.a., ..., (a.)^127 — each is one label
+   and a pointer to the previous one — and then (a.)^127 again, which is emitted
+   as a bare pointer and is read back through 127 hops.  With the limit at 127
+   every one of these names decodes. *)
 Fixpoint pack_all (l : list bytes) (st : pn_state) : res pn_state :=
   match l with
   | [] => Ok st
@@ -988,41 +979,16 @@ Definition chain_name (k : nat) : bytes := concat (repeat [97; 46] k).
 Definition chain_names : list bytes := map chain_name (seq 1 127) ++ [chain_name 127].
 Definition chain_labels : list label := repeat [97] 127.
 
-Example chain_witness :
+Example chain_decodes :
   match pack_all chain_names {| pn_out := []; pn_cm := Some [] |} with
   | Ok st =>
     let p := lenN (pn_out st) - 2 in
     parse_name (chain_name 127) = Some chain_labels /\
-    valid_wire chain_labels = true /\
+    valid_wire chain_labels = true /\ length chain_labels = 127%nat /\
     laysb 400 (pn_out st) p chain_labels = true /\
     laysb 400 (pn_out st) (p - 4) chain_labels = true /\
     unpack_name (pn_out st) (p - 4) = Ok (chain_name 127, p) /\
-    unpack_name (pn_out st) p = Err "pointers"
-  | _ => False
-  end.
-Proof. vm_compute. repeat split. Qed.
-
-(* C5 cannot hold without the hop bound *)
-Theorem lays_unpack_refuted :
-  ~ (forall out p ls, lays out p ls -> valid_wire ls = true -> exists r, unpack_name out p = Ok r).
-Proof.
-  intro H. pose proof chain_witness as W.
-  destruct (pack_all chain_names {| pn_out := []; pn_cm := Some [] |}) as [st| | |]; try contradiction.
-  cbv zeta in W. destruct W as [_ [Hv [Hl [_ [_ He]]]]].
-  apply laysb_sound in Hl. destruct (H _ _ _ Hl Hv) as [r Hr]. congruence.
-Qed.
-
-(* and the packer itself produces such a name from the empty map *)
-Example pack_name_undecodable_127 :
-  match pack_all (map chain_name (seq 1 127)) {| pn_out := []; pn_cm := Some [] |} with
-  | Ok st =>
-    match pack_name (chain_name 127) 4096 true st with
-    | Ok st' =>
-      parse_name (chain_name 127) = Some chain_labels /\ valid_wire chain_labels = true /\
-      length chain_labels = 127%nat /\
-      unpack_name (pn_out st') (lenN (pn_out st)) = Err "pointers"
-    | _ => False
-    end
+    unpack_name (pn_out st) p = Ok (chain_name 127, p + 2)
   | _ => False
   end.
 Proof. vm_compute. repeat split. Qed.
